@@ -953,7 +953,7 @@ def _role_like(container, h):
     rets = [x for x in _own_walk(h) if isinstance(x, ast.Return) and x.value is not None]
     if h.name in NATIVE_HELPERS:
         return True
-    if 'byTieOrder' in src or 'tie' in h.name.lower():
+    if any(isinstance(x, ast.Call) and isinstance(x.func, ast.Attribute) and x.func.attr == 'byTieOrder' for x in ast.walk(h)) or 'tie' in h.name.lower():
         return True
     if any(isinstance(x, ast.Attribute) and x.attr == 'advance' for x in ast.walk(h)):
         return True
@@ -972,7 +972,9 @@ def _role_like(container, h):
         return True
     # a pure selector / producer: computes its result with a loop and changes no candidate's status (sure-loser scans, low/high
     # candidate searches).  The rules look such helpers up by what they return; they stay functions.
-    if rets and any(isinstance(x, (ast.For, ast.While)) for x in ast.walk(h)) and not any(
+    if rets and any(isinstance(x, (ast.For, ast.While)) for x in ast.walk(h)) and any(
+            isinstance(x, ast.Call) and isinstance(x.func, ast.Attribute) and x.func.attr in ('hopeful', 'elected', 'pending', 'eligible', 'select', 'defeated')
+            for x in ast.walk(h)) and not any(
             isinstance(x, ast.Call) and isinstance(x.func, ast.Attribute) and x.func.attr in ('elect', 'defeat', 'unpend', 'pend', 'unelect', 'logAction', 'newRound')
             for x in ast.walk(h)):
         return True
